@@ -3,6 +3,7 @@ from rules.builder import *
 from rules import C20 as C20mod
 
 LEVEL = 'proof'
+FIXTURES = ['F5', 'F8']
 
 
 def build_rows(ctx, R, rule='C09.B', length_field_only=False):
